@@ -80,6 +80,35 @@ func (e *Env) getFuel() int {
 	return 2
 }
 
+// addRefWf records that a reference (map / pointer) read from the heap in a contract points below the allocation
+// counter of the state it was read in (global well-formedness invariant of heaps; closed over bound variables).
+func (e *Env) addRefWf(val *Term, typ types.Type) {
+	if typ == nil {
+		return
+	}
+	switch types.Unalias(typ).Underlying().(type) {
+	case *types.Map, *types.Pointer:
+	default:
+		return
+	}
+	al := e.state().alloc
+	if al == nil {
+		return
+	}
+	t := And(Cmp(">=", val, IntLit(0)), Cmp("<", val, al))
+	var bvs []*Term
+	txt := t.String()
+	for _, b := range e.bound {
+		if strings.Contains(txt, b.Op) {
+			bvs = append(bvs, b)
+		}
+	}
+	if len(bvs) > 0 {
+		t = Forall(bvs, t, []*Term{val})
+	}
+	e.side = append(e.side, t)
+}
+
 func specFail(format string, a ...interface{}) {
 	panic(unsupported{"contract: " + fmt.Sprintf(format, a...)})
 }
@@ -422,7 +451,9 @@ func (x *Exec) derefSV(env *Env, v SV) SV {
 		specFail("dereference of non-pointer %s", v.Typ)
 	}
 	s := x.TI.SortOf(pt.Elem())
-	return SV{T: Select(env.heap(hpComp(s), hpSort(s)), v.T), Typ: pt.Elem()}
+	r := Select(env.heap(hpComp(s), hpSort(s)), v.T)
+	env.addRefWf(r, pt.Elem())
+	return SV{T: r, Typ: pt.Elem()}
 }
 
 // findField locates a (possibly promoted) field; returns the index path.
@@ -481,11 +512,14 @@ func (x *Exec) indexSV(env *Env, v SV, i SV) SV {
 		case *types.Slice:
 			comp, cs := x.elemComp(u.Elem())
 			h := env.heap(comp, cs)
-			return SV{T: Select(Select(h, SlArr(v.T)), Sidx(SlOff(v.T), i.T)), Typ: u.Elem()}
+			r := Select(Select(h, SlArr(v.T)), Sidx(SlOff(v.T), i.T))
+			env.addRefWf(r, u.Elem())
+			return SV{T: r, Typ: u.Elem()}
 		case *types.Map:
 			ks, vs := x.TI.SortOf(u.Key()), x.TI.SortOf(u.Elem())
 			mv := env.heap(mvComp(ks, vs), mvSort(ks, vs))
-			return SV{T: Select(Select(mv, v.T), i.T), Typ: u.Elem()}
+			r := Select(Select(mv, v.T), i.T)
+			return SV{T: r, Typ: u.Elem()}
 		}
 	}
 	if v.T.Sort.IsArray() {
@@ -900,6 +934,40 @@ func (x *Exec) probeSpec(env *Env, sf *SpecFunc, si *specInfo) {
 		si.compSorts = append(si.compSorts, pe.reads[c])
 	}
 	// nested recursive spec functions contribute their components through their own applications
+}
+
+// revealAxioms: quantified defining equations (over the value parameters, for the current heap) of opaque spec functions.
+func (x *Exec) revealAxioms(env *Env, names []string) []*Term {
+	var out []*Term
+	pk := ""
+	if env.pkg != nil {
+		pk = env.pkg.Pkg.Path()
+	}
+	for _, name := range names {
+		sf := x.DB.LookupSpec(pk, name)
+		if sf == nil || sf.Body == nil {
+			specFail("reveal: unknown spec function %q", name)
+		}
+		si := x.specInfoOf(env, sf)
+		var args []SV
+		var bvs []*Term
+		for i, p := range sf.Params {
+			x.n++
+			bv := Var(fmt.Sprintf("r_%s_%d", sanitize(p.Name), x.n), si.paramS[i])
+			bvs = append(bvs, bv)
+			args = append(args, SV{T: bv, Typ: si.paramT[i]})
+		}
+		nb := len(env.bound)
+		env.bound = append(env.bound, bvs...)
+		env.unfoldNext = true
+		app := x.applySpec(env, sf, args)
+		env.bound = env.bound[:nb]
+		// applySpec put the (closed) instance into env.side; move it out
+		side := env.takeSide()
+		out = append(out, side...)
+		_ = app
+	}
+	return out
 }
 
 func (x *Exec) applySpec(env *Env, sf *SpecFunc, args []SV) SV {
